@@ -18,3 +18,16 @@ func init() {
 		ch("verifHarnessC09FileClient", map[string]int{"names": 2}, map[string]int{"names": 3}, []string{"end-absent", "end-same", "end-changed"}, "FileClient.GetIfChanged: not-changed iff the stored version equals V; absent -> not found"))
 	c09.Bounds["client"] = "any status code (symbolic int), transport and body-read failures, well-formed or arbitrary response bytes"
 }
+
+func init() {
+	// C08's "404 when the named secret or version does not exist" is the composition of the database's error class
+	// (decided in the db package) and serveJSON's mapping of that class (decided in the server package).
+	c08 := findProp("C08")
+	if c08 == nil {
+		return
+	}
+	c08.Pkgs = append(c08.Pkgs, "db")
+	for _, n := range []string{"Activate", "DeleteVersion", "GetVersion", "Get", "Info"} {
+		c08.Harnesses = append(c08.Harnesses, c02h("verifHarnessC02"+n, nil, "database leg of the status table: DB."+n+" reports a missing secret or version in the not-found class"))
+	}
+}
